@@ -44,14 +44,14 @@ claim(
 claim(
     "C02", "other",
     "byte-layout / reader-grammar correspondence of the BEC2 header and of each auth-block kind's pack and unpack; provenance of selector, version and security code; length-preservation rule for the registered cipher's decrypt; type-consistency rule for the ENC comparison",
-    "Decides that header writer and reader are structural inverses ('BEC2\\0', TLV records in insertion order, 00 00, body offset = header length; reader loops until tag = len = 0), that InitCustKey / Update / InitEcc pack and unpack are inverse layouts whose selector, version and security code reach the attributes pack reads, that the ECIES block is 04 || point(64) || AES(key) on both sides with the same KDF, that the unwrapped key is the one the body is verified and decrypted with, that the cipher adapter's decrypt returns exactly the padded plaintext (no stripping: the static fact behind keys or CRCs ending in 0x00) and that the encrypted configuration component is decrypted on read. Executed round-trip value equality is not decided.",
+    "Decides that header writer and reader are structural inverses ('BEC2\\0', TLV records in insertion order, 00 00, body offset = header length; reader loops until tag = len = 0), that InitCustKey / Update / InitEcc pack and unpack are inverse layouts whose selector, version and security code reach the attributes pack reads, that the ECIES block is 04 || point(64) || AES(key) on both sides with the same KDF, that no encryptor class satisfies the required class of two block kinds (class hierarchy), that the unwrapped key is the one the body is verified and decrypted with, that the cipher adapter's decrypt returns exactly the padded plaintext (no stripping: the static fact behind keys or CRCs ending in 0x00) and that the encrypted configuration component is decrypted on read. Executed round-trip value equality is not decided.",
     "Trusted: python ast, bfsa. Session keys are KEY_SIZE = 16 bytes. BF3 body clauses under C01/C03/C05.",
     "DESIGN.md section 4, C02",
 )
 claim(
     "C04", "other",
     "reader-grammar extraction bound to the documented layout; per-field coverage classification (MAC-covered / compared / region delimiter with enforced end); guard normal forms with structural dominance; exact-read rule on BytesReader",
-    "Decides that the integrity mechanism is complete: no field of the container is read and dropped; every field lies inside a verified MAC's coverage, is compared by a raising guard, or delimits a region whose end is enforced; both MAC guards have the documented coverage/IV/key, dominate acceptance and are skipped only for check_cmac=False; every region and the file must be fully consumed; BytesReader.read and read_int reject short and negative-size reads (necessary because the MACs are over zero-padded data); BF3 and BEC2 signature guards; the body of a BEC2 file is verified with the unwrapped key. The enumeration of all byte flips / truncations is not performed and MAC unforgeability is assumed.",
+    "Decides that the integrity mechanism is complete: no field of the container is read and dropped; every field lies inside a verified MAC's coverage, is compared by a raising guard, or delimits a region whose end is enforced; both MAC guards have the documented coverage/IV/key, dominate acceptance and are skipped only for check_cmac=False; the MAC they compare is the last block of one CBC chain over the whole zero-padded input (registered adapter); every region and the file must be fully consumed; BytesReader.read and read_int reject short and negative-size reads (necessary because the MACs are over zero-padded data); BF3 and BEC2 signature guards; the body of a BEC2 file is verified with the unwrapped key. The enumeration of all byte flips / truncations is not performed and MAC unforgeability is assumed.",
     "Trusted: python ast, bfsa, spec/layout.json. AES-CBC-MAC unforgeability under an unknown key is assumed; the BEC2 header is protected per block (CRC inside the AES container / ECIES), not by a MAC.",
     "DESIGN.md section 4, C04",
 )
@@ -86,7 +86,7 @@ claim(
 claim(
     "C13", "other",
     "must-use path rule over all branch assignments of the unpack loop; byte-layout interpretation of the three payload conversions; guard normal forms with dominance for the rejections; constant-table agreement and pinned domain table; provenance grouping of instruction stores",
-    "Decides: each data line is parsed as U8 n, U16be offset, payload[n-2] and on every path through the unpack loop its payload is appended to the run being assembled (no line is dropped), addresses are (tag type - first tag type) * 0x10000 + offset, runs are stored at every gap and at the end; BF2-compatible sections are the unfiltered concatenation of all raw lines in order, blobs are blocks[0] guarded by `len(blocks) != 1 or 0 not in blocks -> raise`, memory images are {U32be address, U32be length, data} over the sorted extents; unmapped and unknown tag types and firmware without the BF3-update marker (when enforced, the default) are rejected before use; known-range bases equal the mapped tag types, range membership is inclusive, tag-type / interface / special-case / hardware-id tables equal the pinned domain table and the reverse hardware-id map is a bijection; REBOOT, CRC, SELECT, CHECK_FWVER/Firmware, SELECT_IF write exactly tags C5, C7, C9(+C4), C8, C6 with the documented encodings; the filter formatter checks its input's shape before indexing it. Byte preservation on executed images and the boolean equivalence of the rendered filter expression are not decided.",
+    "Decides: the text line parser decodes a ':' line into U16be index, U8 tag type, U8 n, tag[n] (unsigned) and records it as Bf2BinLine(type, index, tag, line) unless the type is FF / FE; each data line is parsed as U8 n, U16be offset, payload[n-2] and on every path through the unpack loop its payload is appended to the run being assembled (no line is dropped), addresses are (tag type - first tag type) * 0x10000 + offset, runs are stored at every gap and at the end; BF2-compatible sections are the unfiltered concatenation of all raw lines in order, blobs are blocks[0] guarded by `len(blocks) != 1 or 0 not in blocks -> raise`, memory images are {U32be address, U32be length, data} over the sorted extents; unmapped and unknown tag types and firmware without the BF3-update marker (when enforced, the default) are rejected before use; known-range bases equal the mapped tag types, range membership is inclusive, tag-type / interface / special-case / hardware-id tables equal the pinned domain table and the reverse hardware-id map is a bijection; REBOOT, CRC, SELECT, CHECK_FWVER/Firmware, SELECT_IF write exactly tags C5, C7, C9(+C4), C8, C6 with the documented encodings; the filter formatter checks its input's shape before indexing it. Byte preservation on executed images and the boolean equivalence of the rendered filter expression are not decided.",
     "Trusted: python ast, bfsa, spec/bf2_tagtypes.json (domain table pinned at the analysed commit).",
     "DESIGN.md section 4, C13",
 )
@@ -107,7 +107,7 @@ claim(
 claim(
     "C20", "other",
     "effect analysis (who may write / in-place mutation / aliasing) of the shared attributes of both point classes; publish-last and snapshot-read syntax-tree rules; lock-discipline rules (pairing, guarded-by, first-in/last-out conditions, wiring) on the abstract-interpretation trace of the lock classes",
-    "Decides structural necessary conditions of the two mechanisms: outside the constructors __precompute and __coords of PointJacobi and PointEdwards are only replaced by one plain assignment of a freshly built value, never mutated in place directly or through an alias; the lazily built table is published by the last statement that touches it; each method takes the coordinate tuple as one snapshot (reloads only after scale(), single components only in zero tests); the light switch changes its counter by exactly one strictly between mutex acquire and release on all paths and takes / releases the outer lock iff the counter is 1 after increment / 0 after decrement; RWLock is built from distinct switches and locks and each of its four operations performs the documented lock operations unconditionally in the documented order. 'Under every interleaving' and deadlock freedom are not decided: that requires state-space exploration, which is not static analysis; a naive lock-order graph would report a counter-infeasible cycle.",
+    "Decides structural necessary conditions of the two mechanisms: outside the constructors __precompute and __coords of PointJacobi and PointEdwards are only replaced by one plain assignment of a freshly built value, never mutated in place directly or through an alias; the lazily built table is published by the last statement that touches it; each method takes the coordinate tuple as one snapshot (reloads only after scale(), single components only in zero tests); the light switch changes its counter by exactly one strictly between mutex acquire and release on all paths and takes / releases the outer lock iff the counter is 1 after increment / 0 after decrement; RWLock is built from distinct switches and locks and each of its four operations performs the documented lock operations unconditionally in the documented order; no function of the ECC package keeps state in a module-level variable that is read back (memo, cache of validated points) or mutates a module-level container. 'Under every interleaving' and deadlock freedom are not decided: that requires state-space exploration, which is not static analysis; a naive lock-order graph would report a counter-infeasible cycle.",
     "Trusted: python ast, bfsa. CPython attribute assignment / tuple load atomicity and threading.Lock are assumed.",
     "DESIGN.md section 4, C20",
 )
@@ -121,21 +121,21 @@ claim(
 claim(
     "C19", "other",
     "exception-escape analysis of the ECC library's decoders with Fourier-Motzkin discharge of index and assertion obligations; sibling rule over the DER remove_* primitives; remainder-provenance rule for trailing data; constant audit of OIDs and the 27-byte header; encoder/decoder prefix agreement",
-    "Decides: for the DER primitives, VerifyingKey / SigningKey .from_der / .from_pem / .from_string, Curve.from_der and PointJacobi.from_bytes every escaping exception class is defined in the ecdsa package or is a ValueError (explicit raises, asserts and implicit raisers; index and assertion obligations discharged by linear entailment from length guards, slice-length definitions and floor-division axioms); each remove_* rejects empty input before indexing and compares the announced length with the bytes available; the remainder after the outer structure of a decoder's input is checked empty, a raw-length point inside DER is rejected, other remainders are parsed further, checked, or belong to a documented optional ASN.1 tail; id-ecPublicKey, the prime-field OID and the 19 curve OIDs equal the registered pinned values and are unique, the 27-byte P-256 header is the exact SubjectPublicKeyInfo prefix; compressed / hybrid / uncompressed prefixes written by the encoders are the ones the decoders accept with the same parity convention; in an explicit-parameters encoding the field elements a and b are written in the length of the field prime (not of the group order). OpenSSL byte compatibility and executed round trips are not decided.",
+    "Decides: for the DER primitives, VerifyingKey / SigningKey .from_der / .from_pem / .from_string, Curve.from_der and PointJacobi.from_bytes every escaping exception class is defined in the ecdsa package or is a ValueError (explicit raises, asserts and implicit raisers; index and assertion obligations discharged by linear entailment from length guards, slice-length definitions and floor-division axioms); each remove_* rejects empty input before indexing and compares the announced length with the bytes available; the remainder after the outer structure of a decoder's input is checked empty, a raw-length point inside DER is rejected, other remainders are parsed further, checked, or belong to a documented optional ASN.1 tail; id-ecPublicKey, the prime-field OID and the 19 curve OIDs equal the registered pinned values and are unique, the 27-byte P-256 header is the exact SubjectPublicKeyInfo prefix; every DER primitive accepts exactly its identifier octet(s) (interpreted on all 256 values); the raw 64-byte conversions that run are those of the registered key class; compressed / hybrid / uncompressed prefixes written by the encoders are the ones the decoders accept with the same parity convention; in an explicit-parameters encoding the field elements a and b are written in the length of the field prime (not of the group order). OpenSSL byte compatibility and executed round trips are not decided.",
     "Trusted: python ast, bfsa (EXC, FACTS/Fourier-Motzkin), spec/oids.json, spec/discharge.json. numbertheory and point arithmetic summarised as raising only numbertheory.Error; arithmetic treated as total (p = 0 in explicit parameters is a recorded blind spot); Edwards paths excluded.",
     "DESIGN.md section 4, C19",
 )
 claim(
     "C18", "other",
     "guard normal forms with structural dominance for range / zero / length / trailing-junk checks; exception-escape analysis of the signature decoders and conversion rule for verify_digest; data-flow rule for the verification equation and canonisation",
-    "Decides only the structural clauses: in Public_key.verifies the guards r < 1, r > n-1, s < 1, s > n-1 return False before s is inverted and the verdict is x(u1*G + u2*Q) mod n == r with u1 = e*s^-1, u2 = r*s^-1 (as data flow); Private_key.sign never returns r = 0 or s = 0, sign_digest_deterministic retries only on RSZeroError with retry_gen incremented and passed to generate_k; sigdecode_string requires exactly 2*l bytes split in the middle, sigdecode_strings exactly two strings of l bytes, sigdecode_der exactly SEQUENCE{r, s} with nothing after the sequence or after s; the decoders can only raise MalformedSignature / UnexpectedDER, verify_digest converts both to BadSignatureError and raises it on a False verdict (its only normal return is True); canonical encoders replace s > order/2 by order - s; the point-arithmetic rules of C17 that the verdict is computed with (addition dispatcher, multiply-add combinations and digit walk) are re-run here; the RFC 6979 nonce derivation is compared step by step with the RFC's script, bits2int / bits2octets with their definitions on a grid of values. Not decided (no sound static argument in reach): that library signatures verify, that any single-bit change is rejected, OpenSSL interoperability, RFC 6979 test vectors.",
+    "Decides only the structural clauses: in Public_key.verifies the guards r < 1, r > n-1, s < 1, s > n-1 return False before s is inverted, a sum point equal to INFINITY is refused before its x coordinate is taken, the DER primitives the decoder uses accept exactly the identifier octets 30 / 02 (all 256 values interpreted) and the verdict is x(u1*G + u2*Q) mod n == r with u1 = e*s^-1, u2 = r*s^-1 (as data flow); Private_key.sign never returns r = 0 or s = 0, sign_digest_deterministic retries only on RSZeroError with retry_gen incremented and passed to generate_k; sigdecode_string requires exactly 2*l bytes split in the middle, sigdecode_strings exactly two strings of l bytes, sigdecode_der exactly SEQUENCE{r, s} with nothing after the sequence or after s; the decoders can only raise MalformedSignature / UnexpectedDER, verify_digest converts both to BadSignatureError and raises it on a False verdict (its only normal return is True); canonical encoders replace s > order/2 by order - s; the point-arithmetic rules of C17 that the verdict is computed with (addition dispatcher, multiply-add combinations and digit walk) are re-run here; the RFC 6979 nonce derivation is compared step by step with the RFC's script, bits2int / bits2octets with their definitions on a grid of values. Not decided (no sound static argument in reach): that library signatures verify, that any single-bit change is rejected, OpenSSL interoperability, RFC 6979 test vectors.",
     "Trusted: python ast, bfsa. The numeric content of ECDSA is outside this check (group law clauses under C17); group orders >= 2.",
     "DESIGN.md section 4, C18",
 )
 claim(
     "C17", "other",
     "constant audit of the 17 curve parameter sets with the checker's own bignum arithmetic; interval analysis in units of p (canonicity domain) over the Jacobian formula functions; sibling rules over the addition variants and dispatcher; guard normal forms for validation and ECDH; (thorough) polynomial identity checking of the formulas against the affine group law",
-    "Decides: for all 17 short-Weierstrass curves p and n are prime, the curve is non-singular, G lies on it, n*G is infinity and the cofactor satisfies Hasse's bound (literals folded from ecdsa.py, checker's own arithmetic); every zero test in the Jacobian formula functions and the dispatcher is applied to a value that lies strictly inside (-p, p) given X, Z in [0, p) and Y in (-p, p), every returned coordinate is reduced, only Y is ever negated -- so points are recognised as equal / infinite regardless of their integer representation; all four addition variants divert equal operands to doubling before the generic formula, the dispatcher handles both infinity operands and every Z shape, public operations map Y3 = 0 or Z3 = 0 to INFINITY; scalar multiplication recodes the scalar as k = 2k' + d and walks the NAF digits from the most significant end, the combined multiplication mul_add adds the combination its two digits call for and (interpreted on concrete control for digit lists of different lengths) pairs the two lists from their most significant ends with the shorter one zero-extended there; the affine Point class handles infinity, inverse and equal operands before the chord formula, which is checked on a small curve; ECDH refuses missing keys, differing curves and an infinite result, keys on another curve are refused before being stored, a failing square root becomes MalformedPointError; the public-key validation chain of C09. Thorough tier: the six formula functions equal the chord/tangent law as identities of rational functions (reductions dropped). Not decided: agreement with OpenSSL, executed group enumeration, equality of ECDH secrets as values.",
+    "Decides: for all 17 short-Weierstrass curves p and n are prime, the curve is non-singular, G lies on it, n*G is infinity and the cofactor satisfies Hasse's bound (literals folded from ecdsa.py, checker's own arithmetic); PointJacobi.__eq__ decides congruence modulo p in every comparison it makes (interval domain); for each curve x^3 + ax + b has no root mod p, so the encoding of infinity as Y = 0 conflates nothing (violated by SECP112r2, cofactor 4: known finding); every zero test in the Jacobian formula functions and the dispatcher is applied to a value that lies strictly inside (-p, p) given X, Z in [0, p) and Y in (-p, p), every returned coordinate is reduced, only Y is ever negated -- so points are recognised as equal / infinite regardless of their integer representation; all four addition variants divert equal operands to doubling before the generic formula, the dispatcher handles both infinity operands and every Z shape, public operations map Y3 = 0 or Z3 = 0 to INFINITY; scalar multiplication recodes the scalar as k = 2k' + d and walks the NAF digits from the most significant end, the combined multiplication mul_add adds the combination its two digits call for and (interpreted on concrete control for digit lists of different lengths) pairs the two lists from their most significant ends with the shorter one zero-extended there; the affine Point class handles infinity, inverse and equal operands before the chord formula, which is checked on a small curve; ECDH refuses missing keys, differing curves and an infinite result, keys on another curve are refused before being stored, a failing square root becomes MalformedPointError; the public-key validation chain of C09. Thorough tier: the six formula functions equal the chord/tangent law as identities of rational functions (reductions dropped). Not decided: agreement with OpenSSL, executed group enumeration, equality of ECDH secrets as values.",
     "Trusted: python ast, bfsa, bfsa.constaudit; sympy (tooling venv) as polynomial normaliser in the thorough tier. Callers pass canonical integers to the low-level point constructors.",
     "DESIGN.md section 4, C17",
 )
